@@ -183,7 +183,7 @@ def run(ctx):
     del _SLICE[:]
     _SLICE.extend(sl)
     max_dev = ctx.pick(1, 2)
-    budget = ctx.pick(60, 1200)
+    budget = ctx.pick(60, 400)
     infos = explore_many(len(sl), lambda items: pmap(run_item, items, jobs=ctx.jobs, seed=ctx.seed, chunk=4), max_dev, budget)
     viols = []
     texts = [dict() for _ in sl]      # text -> first prefix
